@@ -79,7 +79,7 @@ CHECKS.update({
          "Sizes 0..N x 3 key layouts (distinct, round-robin, adjacent same key): valid batch, one invalid item at every position x 6 kinds, every pair of positions with complementary / swapped errors; accept <=> every item verifies (library + independent verifier), verify_single <=> verify (Taproot: also signatures held in memory with odd-Y R); boundary blinder values and out-of-range source answers injected through the scripted source do not change the verdict. On GF(7)/GF(11)/GF(13) every blinder vector is fed through the scripted source: valid batches accepted by all, invalid ones (every error pattern over {0,1,-1,2}^k) by at most q^(k-1).",
          "The 2^-128 bound on real curves is inferred (generic code + fresh full-width draw per item, C16); exact only on the tiny field.", "DESIGN 4 C19"),
  "C20": ("exploration", "enumeration of secret-bearing types x shapes x operations with an allocator wrapper reading the freed storage, ManuallyDrop controls",
-         "10 secret-bearing types (incl. the refresh form of the round-one secret package, t = n shapes, packages built with thresholds 0 / 1 / 65535 or commitments shorter than the coefficients, and packages decoded from bytes / JSON) x suites x seeds: on drop no freed block contains the in-memory image of any secret scalar (control without destructor must show it, and the box must have been observed); zeroize() leaves every secret getter zero and nothing secret re-encodable; the package's own coefficient block (identified by address) shows no coefficient when part two of the DKG / refresh consumes the package; Debug under 14 formatter-flag combinations contains no rendering (hex either case and order, decimal byte list, 16-digit prefix) of any secret scalar.",
+         "10 secret-bearing types (incl. the refresh form of the round-one secret package, t = n shapes, packages built with thresholds 0 / 1 / 65535 or commitments shorter than the coefficients, dealer shares with an empty / short / doubled commitment, nonce objects with one zero nonce, and packages decoded from bytes / JSON) x suites x seeds: on drop no freed block contains the in-memory image of any secret scalar (control without destructor must show it, and the box must have been observed); zeroize() leaves every secret getter zero and nothing secret re-encodable; the package's own coefficient block (identified by address) shows no coefficient when part two of the DKG / refresh consumes the package; Debug under 14 formatter-flag combinations contains no rendering (hex either case and order, decimal byte list, 16-digit prefix) of any secret scalar.",
          "Stack / register copies and library-internal temporaries are not 'the storage it occupied' and are only recorded.", "DESIGN 4 C20"),
 })
 CHECKS.update({
